@@ -8289,6 +8289,12 @@ class HCI_AclDataPacketAssembler:
             HCI_ACL_PB_FIRST_NON_FLUSHABLE,
             HCI_ACL_PB_FIRST_FLUSHABLE,
         ):
+            # A new PDU starts: what was being assembled (if anything) is abandoned
+            self.current_data = None
+            self.l2cap_pdu_length = 0
+            if len(packet.data) < 2:
+                logger.warning('!!! ACL start fragment without an L2CAP length')
+                return
             (l2cap_pdu_length,) = struct.unpack_from('<H', packet.data, 0)
             self.current_data = packet.data
             self.l2cap_pdu_length = l2cap_pdu_length
